@@ -65,12 +65,14 @@ def ledger_cases(ctx, policy="x"):
             lines += [l for l in pl if not (l.startswith("seq-stream") and l.split(" ")[2] != policy)]
     lines += [l for l in c14.corpus_lines() if l.startswith("seq-") and not (l.startswith("seq-stream") and l.split(" ")[2] != policy)]
     # exhaustive depth 2 from a non-empty prologue, over the C14 alphabets
-    for kind in ("i", "s"):
+    for kind in ("i", "s", "p"):
         ex = c14.exhaustive(c14.array_alphabet(flags), 2 if not T else 3, ["push:0:1;push:0:2;push:1:3"])
         if kind == "s":
             ex = [p for p in ex if "appm:0:0" not in p]
         lines += ["seq-array %s %s" % (kind, p) for p in ex]
-        lines += ["seq-array %s %s" % (kind, c14.gen_array(rng, rng.choice([5, 12, 30]), kind, flags)) for _ in range(800 if not T else 12000)]
+        if kind == "p" and not T:
+            ex = ex[::3]
+        lines += ["seq-array %s %s" % (kind, c14.gen_array(rng, rng.choice([5, 12, 30]), kind, flags)) for _ in range((800 if kind != "p" else 300) if not T else 12000)]
     for w in ("1", "2", "4"):
         sa = c14.string_alphabet(flags)
         lines += ["seq-string %s %s" % (w, p) for p in c14.exhaustive(sa if w == "1" or T else sa[::2], 2, ["ctoru:0:32,97,98,32;ctoru:1:99"])]
@@ -126,7 +128,7 @@ def model_line(line, ff=True):
     """The driver line that yields the model trace, or None when the container has no ledger model.
     `ff`: String::operator=(const Char_T*) releases its block before it allocates the new one."""
     t = line.split(" ")
-    if t[0] == "seq-array" and t[1] in ("i", "s"):
+    if t[0] == "seq-array" and t[1] in ("i", "s", "p"):
         return "seqled-array %s %s" % (t[1], t[2])
     if t[0] == "seq-string":
         return "seqled-string %s%s %s" % (t[1], "f" if ff else "", t[2])
